@@ -409,16 +409,20 @@ void BSLightingShaderProperty::Sync(NiStreamReversible& stream) {
 	}
 
 	if (stream.GetVersion().Stream() > 139) {
-		stream.Sync(bslspShaderType);
-
 		// Adjust shader type to old value internally due to removed Height/Parallax enum value (3)
-		if (stream.GetMode() == NiStreamReversible::Mode::Reading) {
-			if (bslspShaderType > 3)
-				bslspShaderType += 1;
+		uint32_t fileShaderType = bslspShaderType;
+		if (stream.GetMode() == NiStreamReversible::Mode::Writing) {
+			if (fileShaderType > 4)
+				fileShaderType -= 1;
 		}
-		else {
-			if (bslspShaderType >= 3)
-				bslspShaderType -= 1;
+
+		stream.Sync(fileShaderType);
+
+		if (stream.GetMode() == NiStreamReversible::Mode::Reading) {
+			if (fileShaderType > 3)
+				fileShaderType += 1;
+
+			bslspShaderType = fileShaderType;
 		}
 	}
 
